@@ -49,6 +49,7 @@ def consuming(g):
     if h == "Memo": return consuming(g[2])
     if h in ("Rec", "RecDecl", "Boxed"): return consuming(g[1])
     if h == "NestedIn": return True
+    if h == "ExtWrap": return consuming(g[1])
     if h == "Pratt": return consuming(g[2])
     return False
 
@@ -173,6 +174,9 @@ class Gen:
         if c == "Filter": return [c, self.pred(), G()]
         if c in ("TryMap", "TryMapWith"): return [c, self.pred(), self.fn1(), self.k(), G()]
         if c == "Validate": return [c, self.pred() if self.r.random() < 0.5 else "PTrue", self.k(), G()]
+        if c == "AndIs" and self.r.random() < 0.4:
+            # a lookahead that consumes less than the kept parser, followed by something that reads on (forward repositioning)
+            return ["Then", ["AndIs", ["Then", self.leaf(True), G()], self.leaf(True)], G()]
         if c in ("Then", "IgnoreThen", "ThenIgnore", "Or", "AndIs", "IgnoreWithCtx", "ThenWithCtx"): return [c, G(), G()]
         if c == "DelimitedBy": return [c, G(), G(), G()]
         if c == "PaddedBy": return [c, G(), G()]
@@ -195,7 +199,7 @@ class Gen:
         if c == "Pratt": return self.pratt()
         if c == "Rec": return self.rec(d - 1)
         if c == "Boxed": return [c, G()]
-        if c == "NestedIn": return [c, G()]
+        if c in ("NestedIn", "ExtWrap"): return [c, G()]
         raise AssertionError(c)
 
     # ----- Pratt tables -----
@@ -330,7 +334,7 @@ def sample(rng, g, alpha, ctx=()):
         return [rng.choice(alpha)]
     if h in ("Map", "MapWith", "To", "Filter", "MapCtx"): return S(g[2])
     if h == "WithCtx": return sample(rng, g[2], alpha, tuple(val_toks(g[1])))
-    if h in ("Ignored", "ToSpan", "ToSlice"): return S(g[1])
+    if h in ("Ignored", "ToSpan", "ToSlice", "ExtWrap"): return S(g[1])
     if h in ("TryMap", "TryMapWith"): return S(g[4])
     if h == "Validate": return S(g[3])
     if h in ("Then", "IgnoreThen", "ThenIgnore"): return S(g[1]) + S(g[2])
